@@ -129,6 +129,13 @@ FindAdd(p, r) ==
   /\ hist' = Append(hist, Op("findadd", [p |-> p, r |-> r, found |-> Find(St, p, r) >= 0]))
   /\ UNCHANGED <<insigs, i2t, funcs, pc, out>>
 
+\* types.get_mut(id).name = Some(..) on a live function type: a debug name is no part of a type's identity - the interner,
+\* the GC pass and the written section go on exactly as if nothing had happened
+NameType(p, r) ==
+  /\ Edit /\ \E id \in Live : Sig(id) = <<p, r>> /\ ~T(id).entry
+  /\ hist' = Append(hist, Op("nametype", [p |-> p, r |-> r]))
+  /\ UNCHANGED <<arena, dmap, insigs, i2t, funcs, pc, clean, out>>
+
 DeleteFunc(f) ==
   /\ Edit /\ f \in DOMAIN funcs /\ funcs[f].live
   /\ funcs' = [funcs EXCEPT ![f].live = FALSE, ![f].root = FALSE]
@@ -183,7 +190,7 @@ Next ==
   \/ EndFuncs
   \/ \E s \in Sigs, root \in BOOLEAN : BuildFunc(s[1], s[2], <<>>, root) \/ \E b \in Sigs : BuildFunc(s[1], s[2], <<b[1], b[2]>>, root)
   \/ \E f \in DOMAIN funcs : DeleteFunc(f) \/ \E b \in BOOLEAN : SetRoot(f, b)
-  \/ \E s \in Sigs : FindAdd(s[1], s[2])
+  \/ \E s \in Sigs : FindAdd(s[1], s[2]) \/ NameType(s[1], s[2])
   \/ Gc
   \/ Emit
 Spec == Init /\ [][Next]_tvars
